@@ -3,7 +3,7 @@
 (* T1 for C32: the Impl layer of Factory (factory.py as written) against   *)
 (* the Spec layer, exhaustively over small registries.                     *)
 (*                                                                         *)
-(* Registries: engines "a", "b" (and "c" when Three) drawn from a menu of  *)
+(* Registries: engines 1, 2 (and 3 when Three)       drawn from a menu of  *)
 (* capability profiles over the features Feats; plan kinds P (offered) and  *)
 (* Q (offered by nobody); compilation kinds C, D (offered) and E (nobody); *)
 (* guarantees O / A (offered) and Z (nobody).  A compiler's                *)
@@ -13,10 +13,11 @@
 (* Requests: every well-formed request over these values; pipelines: every *)
 (* sequence of 1..MaxPipe compilation kinds from {C, D, E}.                *)
 (* Menu = "all": every profile, single requests; "comp": compilers (and    *)
-(* compiler+planner hybrids), pipelines.                                   *)
+(* compiler+planner hybrids), pipelines.  Overlap: only registries whose   *)
+(* engines share an operation mode with engine 1 (the quick tier)  .       *)
 (***************************************************************************)
 EXTENDS Factory
-CONSTANTS Menu, Three, MaxPipe, Feats
+CONSTANTS Menu, Three, MaxPipe, Feats, Overlap
 
 F2 == SUBSET Feats      \* Feats = {"f"} or {"f", "g"}
 Prof(m, fs, p, c, o, a, rm, boom) ==
@@ -43,10 +44,10 @@ CompilerProfiles ==
 
 Profiles == IF Menu = "all" THEN PlannerProfiles \cup OtherProfiles \cup CompilerProfiles ELSE CompilerProfiles
 
-Names == IF Three THEN {"a", "b", "c"} ELSE {"a", "b"}
+Names == IF Three THEN 1..3 ELSE 1..2
 \* duplicate-free sequences over Names, plus one list with a repeated name
 PrefMenu == UNION {{p \in [1..n -> Names] : \A i, j \in 1..n : i # j => p[i] # p[j]} : n \in 0..Cardinality(Names)}
-            \cup {<<"b", "a", "b">>}
+            \cup {<<2, 1, 2>>}
 
 OG == {None, "O", "Z"}
 AG == {None, "A", "Z"}
@@ -61,9 +62,11 @@ Pipelines == SeqsUpTo(MaxPipe)
 VARIABLES phase, reg, prefs
 vars == <<phase, reg, prefs>>
 
-Init == /\ phase = 0 /\ prefs = <<>> /\ reg \in [{"a"} -> Profiles]
+Init == /\ phase = 0 /\ prefs = <<>> /\ reg \in [{1} -> Profiles]
 Next == /\ phase = 0 /\ phase' = 1
-        /\ \E rest \in [Names \ {"a"} -> Profiles] : reg' = [n \in Names |-> IF n = "a" THEN reg["a"] ELSE rest[n]]
+        /\ \E rest \in [Names \ {1} -> Profiles] :
+              /\ Overlap => \A n \in Names \ {1} : rest[n].modes \cap reg[1].modes # {}
+              /\ reg' = [n \in Names |-> IF n = 1 THEN reg[1] ELSE rest[n]]
         /\ prefs' \in PrefMenu
 Spec == Init /\ [][Next]_vars
 
@@ -82,17 +85,17 @@ SingleClauses(r) ==
    LET n == ImplSelect(reg, prefs, r)
        s == Select(reg, prefs, r)
    IN /\ n = s
-      /\ n # None => /\ n \in Range(prefs)
+      /\ n # NoEngine => /\ n \in Range(prefs)
                      /\ Qualifies(reg[n], r)
                      /\ Lacks(reg[n], r) = ""
                      /\ \E i \in DOMAIN prefs : prefs[i] = n /\ \A j \in 1..(i - 1) : ~Qualifies(reg[prefs[j]], r)
-                     /\ EngineClause(reg, prefs, r, {n}) = ""
-                     /\ NoSuitableClause(reg, prefs, r) # ""
-      /\ (n = None) <=> (\A i \in DOMAIN prefs : ~Qualifies(reg[prefs[i]], r))
-      /\ n = None => NoSuitableClause(reg, prefs, r) = ""
+                     /\ EngineClause(reg, prefs, r, s, {n}) = ""
+                     /\ NoSuitableClause(s) # ""
+      /\ (n = NoEngine) <=> (\A i \in DOMAIN prefs : ~Qualifies(reg[prefs[i]], r))
+      /\ n = NoEngine => NoSuitableClause(s) = ""
       /\ AllClause(reg, prefs, r, {prefs[i] : i \in {j \in DOMAIN prefs : ImplSatisfies(reg[prefs[j]], r)}}) = ""
-      /\ (n = None) <=> (SelectAll(reg, prefs, r) = {})
-      /\ \A m \in DOMAIN reg : m # n => EngineClause(reg, prefs, r, {m}) # ""
+      /\ (n = NoEngine) <=> (SelectAll(reg, prefs, r) = {})
+      /\ \A m \in DOMAIN reg : m # n => EngineClause(reg, prefs, r, s, {m}) # ""
 SingleOK == Ready => \A r \in Requests : SingleClauses(r)
 
 \* One pipeline request: the loop as written computes Pipe; each chosen compiler supports the
@@ -105,11 +108,11 @@ PipeClauses(fs, cks) ==
    IN /\ i.k = s.k /\ i.stages = s.stages /\ i.at = s.at
       /\ i.k \in {"pipeline", "none"} => ChainOK(reg, tab, fs, cks, i.stages)
       /\ i.k = "pipeline" => /\ Len(i.stages) = Len(cks)
-                             /\ PipelineClause(reg, prefs, tab, fs, cks, [j \in DOMAIN i.stages |-> {i.stages[j]}])[1] = ""
-                             /\ PipelineNoSuitableClause(reg, prefs, tab, fs, cks)[1] # ""
+                             /\ PipelineClause(reg, prefs, cks, s, [j \in DOMAIN i.stages |-> {i.stages[j]}])[1] = ""
+                             /\ PipelineNoSuitableClause(s)[1] # ""
       /\ i.k = "none" => /\ Len(i.stages) = i.at - 1
                          /\ \A j \in DOMAIN prefs : ~Qualifies(reg[prefs[j]], CompReq(s.kinds[i.at], cks[i.at]))
-                         /\ PipelineNoSuitableClause(reg, prefs, tab, fs, cks)[1] = ""
-      /\ i.k = "rk-raises" => PipelineNoSuitableClause(reg, prefs, tab, fs, cks)[1] = "pipeline-resulting-kind-raises"
+                         /\ PipelineNoSuitableClause(s)[1] = ""
+      /\ i.k = "rk-raises" => PipelineNoSuitableClause(s)[1] = "pipeline-resulting-kind-raises"
 PipeOK == Ready => \A fs \in F2, cks \in Pipelines : PipeClauses(fs, cks)
 =============================================================================
